@@ -198,6 +198,18 @@ fn main() {
                     eprintln!("{yes} confirmed, {no} unconfirmed");
                 }
                 "lockmodel" => std::process::exit(lockmodel::run()),
+                "real-replay" => {
+                    let path = args.get(3).cloned().unwrap_or_default();
+                    let n: usize = args.get(4).and_then(|s| s.parse().ok()).unwrap_or(20_000);
+                    let text = std::fs::read_to_string(&path).unwrap_or_default();
+                    match serde_json::from_str::<conc_check::ConcReplay>(&text) {
+                        Ok(rep) => std::process::exit(conc_check::real_replay(&rep, n)),
+                        Err(e) => {
+                            eprintln!("not a multi-client replay file: {e}");
+                            std::process::exit(2);
+                        }
+                    }
+                }
                 "determinism" => {
                     let n: u64 = args.get(3).and_then(|s| s.parse().ok()).unwrap_or(600);
                     let exe = std::env::current_exe().unwrap();
